@@ -197,13 +197,17 @@ def discharge(ctx, chk, g, with_main=False):
             ok = False
     chk.check(R3, ok, "parse_inst_guards", "subtractions in parse_inst: %s" % [(show(n), c) for n, c in subs], raw.where("parse_inst", "Parser"))
 
-    # parse_operands loop index
-    po = parserx.parse_operands(ctx)
-    f = po["fn"]
-    idx = sites(f["body"], lambda n: n[0] == "index" and show(n[1]).endswith(".operands"))
-    ok = len(idx) == 1 and any(c == "((%s < %s.operands.len()))" % (po["index"], po["grammar"]) or c == "(%s < %s.operands.len())" % (po["index"], po["grammar"]) or
-                               c.strip("()") == "%s < %s.operands.len" % (po["index"], po["grammar"]) for c in idx[0][1]) if idx else False
-    chk.check(R3, ok, "parse_operands_loop", "grammar.operands[i] sites: %s" % [(show(n), c) for n, c in idx], raw.where("parse_operands", "Parser"))
+    # parse_operands: no abstract quantifier case panics (index within the operand list, asserts hold for the rows that can reach them)
+    from . import quantx
+    try:
+        pan = quantx.any_panic(ctx)
+        spx = quantx.special(ctx)
+        sp_pan = [(k, v["result"][1]) for k, v in spx.items() if isinstance(v["result"], tuple) and v["result"][0] == "panic"]
+        chk.check(R3, pan is None and not sp_pan, "parse_operands_loop", "parse_operands can panic: %s %s" % (pan, sp_pan), raw.where("parse_operands", "Parser"))
+        inter = {k for k, v in spx.items() if not any(c == ("operand", k) for c in v["consumed"])}
+    except Anchor as ex:
+        chk.bad(R3, "parse_operands_loop", "parse_operands is not analysable: %s" % ex, raw.where("parse_operands", "Parser"))
+        inter = set()
 
     # special kinds never reach the generic operand parser
     pt = codec.parse_operand_table(ctx)
@@ -225,7 +229,6 @@ def discharge(ctx, chk, g, with_main=False):
             q = path_of(n[3])
             if q:
                 excluded.add(q.split("::")[-1])
-    inter = set(po["intercepted"])
     chk.check(R3, panicking <= inter and panicking <= excluded and len(calls) == 1, "special_kinds",
               "parse_operand panics for %s; parse_operands intercepts %s; parse_spec_constant_op excludes %s before the generic parser" % (
                   sorted(panicking), sorted(inter), sorted(excluded)), raw.where("parse_spec_constant_op", "Parser"), key="C04:special-kinds")
